@@ -19,6 +19,9 @@ def deductive(tier="quick", seed=0):
         pass
     d = run_tasks(tasks)
     d.obligations.extend(pauli_tables.obligations())
+    from lemmas import sums
+
+    d.obligations.extend(sums.prove_sum_ext())
     can = run_tasks(TS.canary_tasks(C))
     d.errors.extend(can.errors)
     d.canaries = TS.canary_summary(can)
